@@ -85,9 +85,10 @@ CHECKS = {
          "wrapper found in the source maps every value within 1/1000 of an integer K to K); if the proof fails a bit-precise binary64 search "
          "finds a concrete input, which is replayed through save_score_midi before it is reported. Engine A: symbolic execution of "
          "save_score_midi(out=None) on 1-2 part scores with symbolic onsets/durations/voice/velocity, read by an independent reader "
-         "(exact ticks, lcm ppq doubled to minimum_ppq, velocity, track/channel grouping per mode, pickup policies) and of "
-         "map_to_track_channel against the documented table.",
-    note="MIDI bytes and load_score_midi (quantisation, estimate_* analyses) are not encoded: the import half of the property is outside the claim. "
+         "(exact ticks also after a divisions change inside a part, lcm ppq doubled to minimum_ppq, velocity, track/channel grouping per mode, the three pickup "
+         "policies, time signatures at their musical positions) and of map_to_track_channel against the documented table; save_score_midi -> load_score_midi "
+         "on three concrete shapes.",
+    note="MIDI bytes are not encoded; the import half (load_score_midi: quantisation, estimate_* analyses) runs on concrete shapes only. "
          "Float lemma: single-segment quarter map, ftp=0, q in the listed set (thorough 1..960). Models: interp1d, defaultdict, np, real-dict workaround.",
     technique="AST->SMT float kernel proof (z3 reals + binary64) and symbolic execution of real code (CrossHair/z3)",
     ref="DESIGN.md §2 C04"),
@@ -108,9 +109,11 @@ CHECKS = {
          "a note without voice/staff and a rest; symbolic onset/split/step/voice/fifths; include_* option tuples) and of "
          "note_array_from_part_list / Score.note_array (2-3 parts with different divisions, optional empty part, unique ids) against row oracles "
          "written from the statement: one row per sounding note, timeline values, exact quarter/beat formulas, optional columns, order by onset "
-         "then pitch, lcm rescaling. Path trees exhausted per instance.",
+         "then pitch, lcm rescaling. Inverse direction: note_array_to_score followed by note_array on 1-3 notes whose onsets/durations lie on a small "
+         "integer grid (realised: the solver enumerates the grid), for div / beat / both / time-signature column kinds. Path trees exhausted per instance.",
     note="float32 storage of the f4 columns is compared with tolerance 1e-6; several notes are pinned to keep the number of orderings "
-         "tractable (stated per harness); the inverse direction note_array_to_score is not covered. Models: interp1d, PPoly, defaultdict, np.",
+         "tractable (stated per harness); the inverse direction is a chain of structured-array kernels and is covered by enumeration through realisation only; "
+         "known findings KF-C05-inverse-only-grace-notes and KF-C05-inverse-divs-from-first-note. Models: interp1d, PPoly, defaultdict, np.",
     technique="symbolic execution of real code (CrossHair/z3) vs row oracle",
     ref="DESIGN.md §2 C05"),
  "C15": dict(
@@ -127,18 +130,21 @@ CHECKS = {
          "durations enumerated by the solver on a grid that contains every table value and its neighbours), (b) find_tie_split (pieces tile "
          "the interval and evaluate to their length), (c) add_measures on a timeline with symbolic end, optional second time signature and "
          "optional existing measure at symbolic positions (measures tile the timeline, lengths implied by the signature unless cut, existing "
-         "measure kept, consecutive numbering). Path trees exhausted per instance.",
-    note="tie_notes / find_tuplets / fill_rests / sanitize_part are NOT encoded (object-graph surgery over whole parts: path explosion); "
-         "that half of the property is outside the claim. Known finding KF-C11-estimate-tolerance (eps acceptance window).",
+         "measure kept also across the signature change, consecutive numbering), (d) tie_notes / split_note on 3-4 explicit measures with a divisions change at the barline and one "
+         "note of symbolic onset and duration (realised): note array unchanged, every piece inside one measure, chain contiguous with one pitch/voice/staff, assigned "
+         "symbolic durations evaluate under the divisions in force, slur end moved. Path trees exhausted per instance.",
+    note="find_tuplets / fill_rests / sanitize_part are NOT encoded; that part of the property is outside the claim. tie_notes runs on realised numbers "
+         "(the duration estimator searches tables). Known findings KF-C11-estimate-tolerance and KF-C11-estimate-tuplet-tolerance (eps acceptance windows).",
     technique="symbolic execution of real code (CrossHair/z3) vs tiling / round-trip oracles",
     ref="DESIGN.md §2 C11"),
  "C09": dict(
     text="Symbolic execution of add_segments/get_paths/unfold_paths/Path/ScoreVariant.create_variant_part/new_part_from_path/"
          "unfold_part_maximal/unfold_part_minimal/iter_unfolded_parts on repeat-structure templates (none, simple repeat at start/middle, two "
-         "independent repeats, first/second ending, da capo al fine) whose section lengths are symbolic: length = sum of visited sections, "
+         "independent repeats, nested repeats, first/second ending also with a tie into the first ending, plain da capo / dal segno, da capo al fine, "
+         "dal segno al coda and da capo al coda) whose section lengths are symbolic: length = sum of visited sections, "
          "every note once per visit at the shifted position with unchanged pitch/voice/staff and suffixed id, no repeat/jump objects left, "
          "tie/slur/time-point references inside the copy, variant count, equal part for no repeats, original unchanged (fingerprint).",
-    note="Structure is concrete per template (dal segno/coda, nested repeats, three endings are outside); two lengths symbolic, others pinned. "
+    note="Structure is concrete per template (three endings and the maximal unfolding of coda layouts are outside); two lengths symbolic, others pinned. "
          "Warning formatting is stubbed and format(int) kept lazy (opt-in CrossHair patch). Known findings: Segment objects cached on the original "
          "part (ignored by the fingerprint while listed) and full-extent copies of objects crossing a jump.",
     technique="symbolic execution of real code (CrossHair/z3) vs visit-sequence oracle",
